@@ -283,6 +283,114 @@ theorem txs_live (he : Exec c xs ls) (ha : ∀ i, Amb c B (xs i)) (hf : Fair c x
   obtain ⟨j, hj, h⟩ := key ((xs i).g.annT) i (Nat.le_refl i) (by omega)
   exact ⟨j, hj, h⟩
 
+-- ------------------------------------------------------------------ tasks
+
+/-- the rank of a pending task is kept until it decreases or the task finishes, and every worker step ends that -/
+theorem task_un {k : Nat} {a : Nat × Nat} {w : WPc} (h : Label) (hw : isWorker h = true) (hc : c.busy < c.cap)
+    (l : Label) (x x' : XSt) (hx : Amb c B x) (hx' : Amb c B x') (hs : xstep c l x = some x')
+    (hp : Pend k x.g ∧ rank B k x = a ∧ x.s.wp = w) :
+    ((Pend k x'.g ∧ rank B k x' = a ∧ x'.s.wp = w) ∧ l ≠ h) ∨
+      (k ∈ x'.g.fin ∨ (Pend k x'.g ∧ lexLt (rank B k x') a)) := by
+  obtain ⟨hp1, hp2, hp3⟩ := hp
+  rcases rank_step hc hx.xinv hs hx.nq hx'.nq hx'.bud hp1 with h1 | ⟨h1, h2 | ⟨h2, h3, h4⟩⟩
+  · exact Or.inr (Or.inl h1)
+  · exact Or.inr (Or.inr ⟨h1, hp2 ▸ h2⟩)
+  · refine Or.inl ⟨⟨h1, h2.trans hp2, h3.trans hp3⟩, ?_⟩
+    intro hl
+    rw [hl, hw] at h4
+    cases h4
+
+/-- from every rank, a pending task finishes or gets to a smaller rank -/
+theorem task_rank (hc : c.busy < c.cap) (he : Exec c xs ls) (ha : ∀ i, Amb c B (xs i)) (hf : Fair c xs ls)
+    (k : Nat) (a : Nat × Nat) :
+    LeadsTo xs (fun x => Pend k x.g ∧ rank B k x = a)
+      (fun x => k ∈ x.g.fin ∨ (Pend k x.g ∧ lexLt (rank B k x) a)) := by
+  intro i hp
+  have wf := fun (w : WPc) (h : Label) (hw : isWorker h = true) (hcore : h.core = true)
+      (hen : ∀ x, Amb c B x → (Pend k x.g ∧ rank B k x = a ∧ x.s.wp = w) → (fire .fixed c h x.s).isSome = true) =>
+    wf_rule he ha (P := fun x => Pend k x.g ∧ rank B k x = a ∧ x.s.wp = w)
+      (Q := fun x => k ∈ x.g.fin ∨ (Pend k x.g ∧ lexLt (rank B k x) a)) h hen (task_un h hw hc) (hf.weak h hcore)
+  have sf := fun (w : WPc) (hw : susNext w ≠ none) =>
+    sf_rule he ha (P := fun x => Pend k x.g ∧ rank B k x = a ∧ x.s.wp = w)
+      (Q := fun x => k ∈ x.g.fin ∨ (Pend k x.g ∧ lexLt (rank B k x) a)) .sus (top_again he ha hf)
+      (fun x hx hp hr => by
+        have := hx.nq
+        obtain ⟨_, _, hp3⟩ := hp
+        cases w <;> simp [susNext] at hw <;> simp [fire, susNext, hp3, hr, this])
+      (task_un .sus rfl hc) hf.sus
+  have hwin : ∀ x, Amb c B x → window x.s.wp = true → x.s.hp = .wait := by
+    intro x hx hw
+    rcases hx.xinv.inv.winH hw with h | h
+    · exact h
+    · have := hx.xinv.inv.hDone h.1
+      rw [hx.nq] at this
+      cases this
+  cases hwp : (xs i).s.wp with
+  | top =>
+    refine wf .top .wTakeImp rfl rfl ?_ i ⟨hp.1, hp.2, hwp⟩
+    intro x hx ⟨h1, _, h3⟩
+    have hh := hx.xinv.hand
+    have hq := hx.xinv.qlen
+    rw [h3] at hh
+    have hnone : x.g.hand = none := by
+      cases hhd : x.g.hand with
+      | none => rfl
+      | some t => simp [hhd, inflight] at hh
+    have : 0 < x.g.q.length := by
+      rcases h1 with h1 | h1
+      · rw [hnone] at h1; cases h1
+      · exact List.length_pos_of_mem h1
+    simp [fire, h3]
+    omega
+  | impSus => exact sf .impSus (by simp [susNext]) i ⟨hp.1, hp.2, hwp⟩
+  | remSus => exact sf .remSus (by simp [susNext]) i ⟨hp.1, hp.2, hwp⟩
+  | impCommit =>
+    exact wf .impCommit (.wCommitI .fin) rfl rfl (fun x _ hp => by simp [fire, hp.2.2]) i ⟨hp.1, hp.2, hwp⟩
+  | remCommit =>
+    exact wf .remCommit (.wCommitR .finish) rfl rfl (fun x _ hp => by simp [fire, hp.2.2]) i ⟨hp.1, hp.2, hwp⟩
+  | impRes o =>
+    refine wf (.impRes o) .res rfl rfl ?_ i ⟨hp.1, hp.2, hwp⟩
+    intro x hx ⟨_, _, h3⟩
+    have h1 := hwin x hx (by rw [h3]; rfl)
+    have h2 := hx.nq
+    cases o <;> simp [fire, resNext, h1, h2, h3]
+  | remRes o =>
+    refine wf (.remRes o) .res rfl rfl ?_ i ⟨hp.1, hp.2, hwp⟩
+    intro x hx ⟨_, _, h3⟩
+    have h1 := hwin x hx (by rw [h3]; rfl)
+    have h2 := hx.nq
+    cases o <;> simp [fire, resNext, h1, h2, h3]
+  | remChk =>
+    refine wf .remChk .wChkGo rfl rfl ?_ i ⟨hp.1, hp.2, hwp⟩
+    intro x hx ⟨_, _, h3⟩
+    simp [fire, h3, hx.nq]
+  | push =>
+    refine wf .push .wPush rfl rfl ?_ i ⟨hp.1, hp.2, hwp⟩
+    intro x hx ⟨_, _, h3⟩
+    have hnd := (no_drop_of_inv hc hx.xinv.inv).1
+    simp [fire, h3] at hnd
+    simp [fire, h3]
+    omega
+  | done =>
+    have := (ha i).xinv.inv.wDone hwp
+    rw [(ha i).nq] at this
+    cases this
+
+/-- a task that is in the queue or in the worker's hands eventually finishes -/
+theorem task_live (hc : c.busy < c.cap) (he : Exec c xs ls) (ha : ∀ i, Amb c B (xs i)) (hf : Fair c xs ls)
+    (k : Nat) : LeadsTo xs (fun x => Pend k x.g) (fun x => k ∈ x.g.fin) :=
+  leadsTo_wf lexLt lexLt_wf (rank B k) (task_rank hc he ha hf k)
+
+/-- every task accepted by instant `i` has finished by some instant `j` -/
+theorem accepted_live (hc : c.busy < c.cap) (he : Exec c xs ls) (ha : ∀ i, Amb c B (xs i)) (hf : Fair c xs ls)
+    (i k : Nat) (hk : k < (xs i).g.next) : ∃ j, i ≤ j ∧ k ∈ (xs j).g.fin := by
+  have hx := (ha i).xinv
+  rcases hx.acc k hk with h | h | h | h
+  · exact task_live hc he ha hf k i h
+  · exact ⟨i, Nat.le_refl i, h⟩
+  · rw [hx.ab (ha i).nq] at h; cases h
+  · rw [hx.lost] at h; cases h
+
 end exec
 
 end MW.Lemmas.ProtoLive
